@@ -229,6 +229,15 @@ pub fn featdigest(tier: Tier, seed: u64) {
                     }
                 }
             }
+            // chains whose support has 64 ... 130 variables: restrictions and connectives vs. the reference BDD
+            if (24..30).contains(&k) {
+                // a build that counts models ad hoc cannot hold a diagram of 65 or more levels at all (known finding K3:
+                // the counts are machine words) - it gets the sizes up to 64
+                let n = if crate::bddx::features().adhoccountmodels { [40usize, 56, 60, 62, 63, 64][(k - 24) as usize] } else { [64usize, 65, 66, 70, 100, 130][(k - 24) as usize] };
+                for (kd, msg) in crate::c06_07::wide_support_case(n, seed % 3) {
+                    run.violation(&format!("C07:{}", kd), format!("{} (chain #{} over {} variables)", msg, seed % 3, n), json!({"inner_property": "C07", "inner_case": {"type": "wide-support", "vars": n, "index": seed % 3}}));
+                }
+            }
             if k < 256 {
                 for (kind, msg) in crate::c06_07::reimport_restrict_case(k as TT, 3, 5) {
                     run.violation(&format!("C07:{}", kind), format!("{} (function {:#x})", msg, k), json!({"inner_property": "C07", "inner_case": {"type": "reimport-restrict", "tt": k, "vars": 3, "writer": 5}}));
